@@ -275,7 +275,12 @@ func buildMethodBSInfo(context *MethodDeclarationContext, bsInfo bs_domain.Funct
 		for _, statement := range blcStatement {
 			if reflect.TypeOf(statement.GetChild(0)).String() == "*parser.StatementContext" {
 				// `switch (x) { case 1 -> ...; }` is a statement made of a switch expression (and an optional `;`)
-				if _, ok := statement.GetChild(0).(*StatementContext).GetChild(0).(*SwitchExpressionContext); ok {
+				// (followed by a `;` it parses as an expression statement whose expression is the switch expression)
+				first := statement.GetChild(0).(*StatementContext).GetChild(0)
+				if expr, ok := first.(*ExpressionContext); ok && expr.GetChildCount() == 1 {
+					first = expr.GetChild(0)
+				}
+				if _, ok := first.(*SwitchExpressionContext); ok {
 					bsInfo.SwitchSize = bsInfo.SwitchSize + 1
 					continue
 				}
